@@ -1025,6 +1025,53 @@ package gocql
 //@   ensures forall(k, 0 <= k && k < len(p), result[k] == p[k])
 
 // ---------------------------------------------------------------------------
+// query_executor.go / policies.go (C13): the sequential executor as a monitor over
+// its calls: attempts (attemptQuery), policy decisions (Attempt, GetRetryType),
+// host advances (hostIter). `loop 0: step` clauses hold for every iteration that
+// loops back (i.e. every decision to try again).
+// ---------------------------------------------------------------------------
+
+//@ func (q *queryExecutor) attemptQuery
+//@   props C13
+//@   trusted one execution of the query on the given connection; result is the attempt's iterator
+//@   modifies nothing
+//@   ensures result != nil
+
+//@ func (p *policyConnPool) getPool
+//@   props C13
+//@   trusted the pool map holds non-nil pools (setHost/addHost store only freshly created pools)
+//@   modifies nothing
+//@   ensures ok ==> pool != nil
+
+//@ func (q *queryExecutor) do
+//@   props C13
+//@   count_calls attemptQuery Attempt GetRetryType hostIter IsIdempotent
+//@   requires q.pool != nil && qry != nil
+//@   assume ErrNoConnections != nil && ErrUnknownRetryType != nil
+// at most one attempt per iteration
+//@   loop 0: step attemptQuery_calls <= prev(attemptQuery_calls) + 1
+// trying again after an attempt requires: the attempt failed with a non-context error, the query is idempotent,
+// the policy allowed another attempt and decided Retry or RetryNextHost
+//@   loop 0: step attemptQuery_calls == prev(attemptQuery_calls) + 1 ==> IsIdempotent_calls == prev(IsIdempotent_calls) + 1 && IsIdempotent_ret0
+//@   loop 0: step attemptQuery_calls == prev(attemptQuery_calls) + 1 ==> Attempt_calls == prev(Attempt_calls) + 1 && Attempt_ret0
+//@   loop 0: step attemptQuery_calls == prev(attemptQuery_calls) + 1 ==> GetRetryType_calls == prev(GetRetryType_calls) + 1 && (GetRetryType_ret0 == Retry || GetRetryType_ret0 == RetryNextHost)
+//@   loop 0: step attemptQuery_calls == prev(attemptQuery_calls) + 1 ==> attemptQuery_ret0.err != nil
+// Retry: same host, host iterator not advanced; RetryNextHost: advanced exactly once
+//@   loop 0: step attemptQuery_calls == prev(attemptQuery_calls) + 1 && GetRetryType_ret0 == Retry ==> selectedHost == prev(selectedHost) && hostIter_calls == prev(hostIter_calls)
+//@   loop 0: step attemptQuery_calls == prev(attemptQuery_calls) + 1 && GetRetryType_ret0 == RetryNextHost ==> hostIter_calls == prev(hostIter_calls) + 1
+// no attempt in this iteration (host down / no pool / no connection): just the next host
+//@   loop 0: step attemptQuery_calls == prev(attemptQuery_calls) ==> hostIter_calls == prev(hostIter_calls) + 1
+// exactly one result, never nil
+//@   ensures result != nil
+//@   ensures attemptQuery_calls == 0 ==> result.err != nil
+
+//@ func (s *SimpleRetryPolicy) Attempt
+//@   props C13
+//@   requires q != nil
+//@   count_calls Attempts
+//@   ensures Attempts_calls == 1 && result == (Attempts_ret0 <= s.NumRetries)
+
+// ---------------------------------------------------------------------------
 // uuid.go (RFC 4122; oracle in /verif/spec/bv.smt2 blocks uuid, hex)
 // ---------------------------------------------------------------------------
 
